@@ -255,6 +255,44 @@ func (h *vtNode) feedH(stream []byte, chunk int, failWrite bool, hookAt int, hoo
 	return f
 }
 
+// a peer that connects, sends a few bytes and then stalls with the connection held open: the handler must give
+// up after TCPTimeout (net.Pipe honours deadlines; the fake connection above does not)
+func (h *vtNode) stall(prefix []byte) vtFeed {
+	before := h.snapshot()
+	c1, c2 := net.Pipe()
+	done := make(chan struct{})
+	var f vtFeed
+	go func() {
+		defer close(done)
+		defer func() {
+			if recover() != nil {
+				f.pan = true
+			}
+		}()
+		h.m.handleConn(c1)
+	}()
+	go func() {
+		if len(prefix) > 0 {
+			c2.Write(prefix)
+		}
+	}()
+	time.Sleep(h.m.config.TCPTimeout + time.Second)
+	synctest.Wait()
+	released := false
+	select {
+	case <-done:
+		released = true
+	default:
+	}
+	c2.Close()
+	<-done
+	synctest.Wait()
+	f.closed = released
+	f.changed = h.snapshot() != before
+	f.consumed = len(prefix)
+	return f
+}
+
 func vtLabelHeader(label string) []byte {
 	if label == "" {
 		return nil
@@ -457,6 +495,18 @@ func vtRound(r *vfRng, st *vfStats, allCuts bool, round int) []vfCase {
 			}
 		}
 	}
+	// ---- a host in the middle of a key rotation: the sender's key is installed but is not the host's primary ----
+	if len(keys) > 1 {
+		sc := hc
+		sc.keys = []int{keys[1], keys[0]}
+		h := vtMake(sc, []string{"ha"}, []byte("H-state"), nil, false)
+		f := h.feed(req, 0)
+		eff := h.lists("ia") && h.lists("ib") && h.lists("ini") && f.wrote
+		if ustate != nil {
+			eff = eff && len(h.del.merged) == 1 && bytes.Equal(h.del.merged[0], ustate)
+		}
+		out = append(out, vtFeedCase(1, sc, ic, req, f, eff, true, st))
+	}
 	// ---- the reply cannot be delivered (the initiator is gone): the exchange failed for the
 	//      initiator, so the host must not have merged its state either ----
 	{
@@ -468,6 +518,16 @@ func vtRound(r *vfRng, st *vfStats, allCuts bool, round int) []vfCase {
 	for _, n := range vtOffsets(r, len(req), allCuts) {
 		f := host.feed(req[:n], 0)
 		out = append(out, vtFeedCase(2, hc, ic, req[:n], f, false, true, st))
+	}
+	// ---- a peer that stalls: nothing at all, inside the label header, right after it, inside the frame header ----
+	{
+		cuts := map[int]bool{0: true, 1: true, 2: true, len(lh) / 2: true, len(lh): true, len(lh) + 1: true, len(lh) + 3: true}
+		for n := range cuts {
+			if n <= len(req) {
+				h := vtMake(hc, []string{"ha"}, nil, nil, false)
+				out = append(out, vtFeedCase(10, hc, ic, req[:n], h.stall(req[:n]), false, false, st))
+			}
+		}
 	}
 	// ---- other label ----
 	for _, other := range []string{"", "blu", "blue2", "red"} {
@@ -502,6 +562,32 @@ func vtRound(r *vfRng, st *vfStats, allCuts bool, round int) []vfCase {
 				continue
 			}
 			out = append(out, vtFeedCase(class, hc, ic, vwFlip(req, pos, 0), f, false, true, st))
+		}
+		// ---- no key at all: a peer without encryption sends the same request in clear; and answers in clear ----
+		{
+			pc := ic
+			pc.keys = nil
+			pini := vtMake(pc, []string{"ia", "ib"}, ustate, nil, false)
+			prec := &vtConn{}
+			pini.tr.next = func() net.Conn { return prec }
+			pini.m.pushPullNode(addr, join)
+			pini.tr.next = nil
+			preq := append([]byte(nil), prec.wr.Bytes()...)
+			hp := vtMake(hc, []string{"ha"}, []byte("H-state"), nil, false)
+			out = append(out, vtFeedCase(9, hc, pc, preq, hp.feed(preq, 0), false, true, st))
+			phc := hc
+			phc.keys = nil
+			ph := vtMake(phc, []string{"ha"}, []byte("H-state"), nil, false)
+			if pf := ph.feed(preq, 0); len(pf.reply) > 0 {
+				before := ini.snapshot()
+				d0 := ini.del.calls()
+				ini.tr.next = func() net.Conn { return &vtConn{rd: append([]byte(nil), pf.reply...)} }
+				err := ini.m.pushPullNode(addr, join)
+				ini.tr.next = nil
+				synctest.Wait()
+				f2 := vtFeed{changed: ini.snapshot() != before || err == nil, dcalls: ini.del.calls() - d0, closed: true}
+				out = append(out, vtFeedCase(9, ic, phc, pf.reply, f2, false, false, st))
+			}
 		}
 		// ---- foreign key / removed key ----
 		fc := hc
@@ -803,6 +889,160 @@ func vtJoin(r *vfRng, st *vfStats) vfCase {
 	return c
 }
 
+// ---- a periodic (non-join) push/pull between two live nodes, compatible or not ----
+func vtExchange(r *vfRng, st *vfStats) vfCase {
+	nw := &vtNet{nodes: map[string]*vtPipeTransport{}}
+	inc := r.chance(50)
+	dels := map[string]*vtDelegate{}
+	mk := func(name, addr string, dmin, dmax, dcur uint8, members []string) *Memberlist {
+		conf := DefaultLANConfig()
+		conf.Name = name
+		tr := &vtPipeTransport{vwTap: newVwTap(), net: nw, addr: addr}
+		nw.nodes[addr] = tr
+		conf.Transport = tr
+		conf.Logger = vwDiscard
+		conf.DelegateProtocolMin, conf.DelegateProtocolMax, conf.DelegateProtocolVersion = dmin, dmax, dcur
+		conf.TCPTimeout = time.Second
+		dels[name] = &vtDelegate{state: []byte("state-of-" + name)}
+		conf.Delegate = dels[name]
+		m, err := newMemberlist(conf)
+		if err != nil {
+			panic(err)
+		}
+		m.setAlive()
+		for i, n := range members {
+			m.aliveNode(&alive{Incarnation: 1, Node: n, Addr: []byte{10, 0, 2, byte(i + 1)}, Port: 7946, Vsn: []uint8{1, 5, 2, dmin, dmax, dcur}}, nil, false)
+		}
+		return m
+	}
+	hd := [3]uint8{0, 0, 0}
+	if inc {
+		hd = [3]uint8{2, 3, 2}
+	}
+	host := mk("host", "10.0.0.2:7946", hd[0], hd[1], hd[2], []string{"hm1"})
+	ini := mk("ini", "10.0.0.3:7946", 0, 0, 0, []string{"im1"})
+	snapshot := func(m *Memberlist) string {
+		var s []string
+		for _, n := range m.Members() {
+			s = append(s, n.Name)
+		}
+		sort.Strings(s)
+		return strings.Join(s, ",")
+	}
+	lists := func(m *Memberlist, name string) bool {
+		for _, x := range m.Members() {
+			if x.Name == name {
+				return true
+			}
+		}
+		return false
+	}
+	i0, h0 := snapshot(ini), snapshot(host)
+	err := ini.pushPullNode(Address{Addr: "10.0.0.2:7946", Name: "host"}, false)
+	synctest.Wait()
+	c := vfCase{Cfg: []int64{14, vwBool(inc)}}
+	c.Ops = [][]int64{{0}}
+	c.Obs = [][]int64{{vwBool(err == nil), vwBool(snapshot(ini) != i0), vwBool(snapshot(host) != h0), int64(dels["ini"].calls()), int64(dels["host"].calls()),
+		vwBool(lists(ini, "host") && lists(ini, "hm1")), vwBool(lists(host, "ini") && lists(host, "im1"))}}
+	host.Shutdown()
+	ini.Shutdown()
+	st.Ops++
+	st.OpHist["periodic_exchange"]++
+	st.class(fmt.Sprintf("14|%v|%v", inc, err == nil))
+	return c
+}
+
+// ---- the exported stream label functions used directly (an outer layer that strips the label itself):
+//      add the header, write the payload in fragments, remove the header, read what is left with buffers of
+//      every size ----
+type vtFrags struct {
+	vtConn
+	frags [][]byte
+}
+
+func (c *vtFrags) Read(p []byte) (int, error) {
+	if len(c.frags) == 0 {
+		return 0, io.EOF
+	}
+	n := copy(p, c.frags[0])
+	if n == len(c.frags[0]) {
+		c.frags = c.frags[1:]
+	} else {
+		c.frags[0] = c.frags[0][n:]
+	}
+	return n, nil
+}
+
+func vtLabelStream(r *vfRng, st *vfStats) vfCase {
+	label := ""
+	switch r.n(6) {
+	case 0:
+	case 1:
+		label = "a"
+	case 2:
+		label = string(bytes.Repeat([]byte{'L'}, 255))
+	default:
+		label = string(bytes.Repeat([]byte{byte('a' + r.n(26))}, 1+r.n(40)))
+	}
+	payload := make([]byte, r.pick([]int{0, 1, 10, 100, 600, 3000, 4090, 4096, 5000}))
+	for i := range payload {
+		payload[i] = byte(r.n(256))
+	}
+	if len(payload) > 0 && r.chance(10) {
+		payload[0] = 244 // an unlabelled stream that happens to start with the marker byte is a labelled one: skip
+		label = "m"
+	}
+	hdr := &vtConn{}
+	if err := AddLabelHeaderToStream(hdr, label); err != nil {
+		panic(err)
+	}
+	stream := append(append([]byte(nil), hdr.wr.Bytes()...), payload...)
+	hostile := r.chance(12)
+	if hostile {
+		stream = [][]byte{{244}, {244, 0}, {244, 0, 1, 2}, {244, 5, 'a', 'b'}, {244, 3, 'a', 'b'}, {}}[r.n(6)]
+	}
+	// the sender's writes
+	var frags [][]byte
+	for rest := stream; len(rest) > 0; {
+		n := r.pick([]int{1, 2, 3, 7, 100, 512, 4096, 8192})
+		if r.chance(30) {
+			n = 1 + r.n(300)
+		}
+		if n > len(rest) {
+			n = len(rest)
+		}
+		frags = append(frags, append([]byte(nil), rest[:n]...))
+		rest = rest[n:]
+	}
+	c := vfCase{Cfg: []int64{15}}
+	for _, f := range frags {
+		c.Ops = append(c.Ops, vwB(f))
+	}
+	if c.Ops == nil {
+		c.Ops = [][]int64{}
+	}
+	conn := &vtFrags{frags: frags}
+	out, lab, err := RemoveLabelHeaderFromStream(conn)
+	var got []byte
+	if err == nil {
+		sizes := []int{1, 3, 7, 64, 500, 4096, 10000}
+		first := r.n(len(sizes))
+		for i := 0; ; i++ {
+			buf := make([]byte, sizes[(first+i)%len(sizes)])
+			n, rerr := out.Read(buf)
+			got = append(got, buf[:n]...)
+			if rerr != nil || i > 100000 {
+				break
+			}
+		}
+	}
+	c.Obs = [][]int64{{vwBool(err != nil)}, vwB([]byte(lab)), vwB(got)}
+	st.Ops++
+	st.OpHist["label_stream"]++
+	st.class(fmt.Sprintf("15|%d|%d|%d|%v", len(label), len(payload)/1000, len(frags)/10, err != nil))
+	return c
+}
+
 // ---- verifyProtocol on random version matrices ----
 func vtVerify(r *vfRng, st *vfStats) vfCase {
 	conf := DefaultLANConfig()
@@ -863,6 +1103,12 @@ func TestVfStream(t *testing.T) {
 			cases = append(cases, vtRound(r, st, all, i)...)
 			for k := 0; k < 6; k++ {
 				cases = append(cases, vtJoin(r, st))
+			}
+			for k := 0; k < 4; k++ {
+				cases = append(cases, vtExchange(r, st))
+			}
+			for k := 0; k < 8; k++ {
+				cases = append(cases, vtLabelStream(r, st))
 			}
 			time.Sleep(3 * time.Hour)
 		})
